@@ -325,8 +325,9 @@ Rollback(comp) ==
     /\ fl' = [p \in FloatParams |->
                 IF FloatKind[p] = "const" THEN ckpt.fl[p]
                 ELSE [kind |-> FloatKind[p], log |-> <<>>]]
-    /\ aFac' = IF ckpt.inc THEN ckpt.aFac ELSE aFac
-    /\ gFac' = IF ckpt.inc THEN ckpt.gFac ELSE gFac
+    \* (a factor that is None in the state leaves the live factor alone)
+    /\ aFac' = IF ckpt.inc /\ ckpt.aFac.has THEN ckpt.aFac ELSE aFac
+    /\ gFac' = IF ckpt.inc /\ ckpt.gFac.has THEN ckpt.gFac ELSE gFac
     /\ LET rec == comp /\ ckpt.inc /\ ckpt.aFac.has /\ ckpt.gFac.has IN
        /\ inv' = IF rec
                  THEN [has |-> TRUE, A |-> ckpt.aFac, G |-> ckpt.gFac,
